@@ -146,7 +146,12 @@ def run(ctx):
         block = '{' + ','.join(frs) + '}'
         roundtrip(ctx, 'cg-fragments', block, False, {'kind': 'fragset', 's': block, 'all_atom': False})
     for _ in range(ctx.budget(300, 6000)):
-        c = gen_mol.cut_case(rng, nmax=10, aromatic_p=0.2, share_p=rng.choice([0, 0, 0.3]))
+        if rng.random() < 0.15:
+            # two aromatic rings joined by a single bond (it has to be written '-')
+            c = gen_mol.cut_case(rng, nmin=12, nmax=14, aromatic_p=1.0, biaryl_p=1.0)
+            ctx.feature('aa-fragments:biaryl')
+        else:
+            c = gen_mol.cut_case(rng, nmax=10, aromatic_p=0.2, share_p=rng.choice([0, 0, 0.3]))
         block = '{' + c['s'].split('}.{', 1)[1]
         roundtrip(ctx, 'aa-fragments', block, True, {'kind': 'fragset', 's': block, 'all_atom': True})
     for _ in range(ctx.budget(150, 3000)):
